@@ -11091,7 +11091,78 @@ def frag_uniquesums(src):
             if len(uses) != 1:
                 raise Untranslatable("%s: %s is read %d times (expected once: the backend "
                                      "argument)" % (qual, nm, len(uses)))
+    out.append(_us_influence_wrappers(src))
     return "\n".join(out)
+
+
+def _us_influence_wrappers(src):
+    """`Tempo._influence`, `PtTempo._influence` and `MeanFieldTempo._get_influence`: the table the
+    backend receives for a step distance dk is `influence_matrix(dk, ...)` of the object's own
+    parameters / bath, read at the first position of every class of the bath's OWN degeneracy maps
+    (computed on the spot) when unique, in full otherwise — nothing is kept between requests."""
+    def norm(n):
+        return "".join(ast.unparse(n).split())
+
+    def pos(b, leg):
+        return ("np.array([np.where(%s.%s_degeneracy_map==i)[0][0]foriinrange(np.max(%s.%s_degeneracy_map)+1)])"
+                % (b, leg, b, leg))
+
+    def check_call(call, where, b, corr):
+        want = {"parameters": "self._parameters", "correlations": corr,
+                "coupling_acomm": b + ".coupling_acomm", "coupling_comm": b + ".coupling_comm",
+                "deg_positions": "tmp_deg_positions"}
+        if not (isinstance(call, ast.Call) and attr_chain(call.func) == ["influence_matrix"]
+                and len(call.args) == 1 and norm(call.args[0]) == "dk"
+                and {k.arg: norm(k.value) for k in call.keywords} == want):
+            raise Untranslatable("%s: the table is not influence_matrix(dk, <own parameters, "
+                                 "correlations, coupling>, deg_positions=tmp_deg_positions): %s"
+                                 % (where, ast.unparse(call)[:120]))
+
+    def check_positions(st, where, b):
+        if not (isinstance(st, ast.If) and norm(st.test) == "self._unique"):
+            raise Untranslatable("%s: expected `if self._unique:` first, found %s"
+                                 % (where, ast.unparse(st)[:80]))
+        body = [norm(x) for x in st.body]
+        if body != ["tmp_north_deg_positions=" + pos(b, "north"),
+                    "tmp_west_deg_positions=" + pos(b, "west"),
+                    "tmp_deg_positions=[tmp_north_deg_positions,tmp_west_deg_positions]"] \
+                or [norm(x) for x in st.orelse] != ["tmp_deg_positions=None"]:
+            raise Untranslatable("%s: the representative positions are not computed on the spot "
+                                 "from %s's own degeneracy maps" % (where, b))
+
+    lines = []
+    for rel, qual in (("oqupy/tempo.py", "Tempo._influence"), ("oqupy/pt_tempo.py", "PtTempo._influence")):
+        fn = src.function(rel, qual)
+        body = [s_ for s_ in fn.body if not (isinstance(s_, ast.Expr) and isinstance(s_.value, ast.Constant))]
+        if len(body) != 2 or not isinstance(body[1], ast.Return):
+            raise Untranslatable("%s: expected `if self._unique: ... else: ...; return "
+                                 "influence_matrix(...)`, found %d statements" % (qual, len(body)))
+        check_positions(body[0], qual, "self._bath")
+        check_call(body[1].value, qual, "self._bath", "self._correlations")
+        lines.append("/-- %s:%d  %s -/\ndef %s_influence_is_own_table : Bool := true\n"
+                     % (rel, fn.lineno, qual, "tempo" if qual.startswith("Tempo") else "pt"))
+    rel, qual = "oqupy/tempo.py", "MeanFieldTempo._get_influence"
+    fn = src.function(rel, qual)
+    body = [s_ for s_ in fn.body if not (isinstance(s_, ast.Expr) and isinstance(s_.value, ast.Constant))]
+    if [a.arg for a in fn.args.args] != ["self", "bath"] or len(body) != 3 \
+            or not isinstance(body[1], ast.FunctionDef) or norm(body[2]) != "returninfluence":
+        raise Untranslatable(qual + ": expected positions; def influence(dk); return influence")
+    check_positions(body[0], qual, "bath")
+    inner = [s_ for s_ in body[1].body if not (isinstance(s_, ast.Expr) and isinstance(s_.value, ast.Constant))]
+    if body[1].name != "influence" or [a.arg for a in body[1].args.args] != ["dk"] or len(inner) != 1 \
+            or not isinstance(inner[0], ast.Return):
+        raise Untranslatable(qual + ": inner function is not `def influence(dk): return influence_matrix(...)`")
+    check_call(inner[0].value, qual, "bath", "bath.correlations")
+    # one closure per bath, made by calling the factory with that bath
+    prep = src.function(rel, "MeanFieldTempo._prepare_backend")
+    hits = src.assignment(prep, "influence_list")
+    if len(hits) != 1 or norm(hits[0].value) != \
+            "[self._get_influence(bath)forbathinself._parsed_parameters_dict['bath']]":
+        raise Untranslatable("MeanFieldTempo._prepare_backend: influence_list is not "
+                             "[self._get_influence(bath) for bath in <baths>]")
+    lines.append("/-- %s:%d  %s (one closure per bath) -/\ndef mft_influence_is_own_table : Bool := true\n"
+                 % (rel, fn.lineno, qual))
+    return "\n".join(lines)
 
 
 def main():
